@@ -87,6 +87,25 @@ End LineBuffer.
 Arguments emit {S}. Arguments feed {S}. Arguments feed_all {S}. Arguments finish {S}.
 Arguments write {S}. Arguments linewise {S}. Arguments linewise_from {S}.
 
+(* _rejoin_split_crlf (module-level generator in src/nunavut/jinja/__init__.py): a CR at the end of a chunk is held back
+   (`carry`) and prepended to the next chunk; a pending CR is yielded as a last chunk of its own.  The yielded chunk may
+   be empty.  `_generate_with_line_buffer` iterates `_rejoin_split_crlf(template_gen)`. *)
+Definition ends_cr (p : str) : bool :=
+  match p with [] => false | _ :: _ => last p 0 =? CR end.
+
+Fixpoint rejoin (carry : bool) (chunks : list str) : list str :=
+  match chunks with
+  | [] => if carry then [[CR]] else []
+  | p :: ps =>
+      let part := (if carry then [CR] else []) ++ p in
+      if ends_cr part then removelast part :: rejoin true ps
+      else part :: rejoin false ps
+  end.
+
+(* the whole of _generate_with_line_buffer as it is now *)
+Definition write_rj {S : Type} (step : S -> line -> S * line) (chunks : list str) (st : S) : S * str :=
+  write step (rejoin false chunks) st.
+
 (* _copy_header_using_line_pps: Python's text-mode line iteration (universal newlines:
    \n, \r\n and lone \r all arrive as a line ending in "\n"; the last line may have no
    terminator) followed by the tuple construction of the source.  `lines` is what
@@ -97,10 +116,13 @@ Section CopyHeader.
 
   Definition removelast2 (s : str) : str := removelast (removelast s).
 
+  (* if line.endswith("\r\n"): (line[0:-2], "\r\n") elif line.endswith("\n"): (line[0:-1], "\n") else: (line, "") *)
   Definition copy_line_tuple (resource_line : str) : line :=
     match rev resource_line with
-    | _ :: c :: _ => if c =? CR then (removelast2 resource_line, [CR; LF]) else (removelast resource_line, [LF])
-    | _ => (removelast resource_line, [LF])
+    | l :: c :: _ => if (l =? LF) && (c =? CR) then (removelast2 resource_line, [CR; LF])
+                     else if l =? LF then (removelast resource_line, [LF]) else (resource_line, [])
+    | [l] => if l =? LF then ([], [LF]) else (resource_line, [])
+    | [] => ([], [])
     end.
 
   Definition copy_header (lines : list str) (st : S) : S * str :=
